@@ -4,7 +4,7 @@
     (trusted base): transactions are atomic, and durable once Commit returned. *)
 From Coq Require Import List NArith Bool Arith.
 From Atlas Require Import Base.Bytes Base.Stutter Exec.ExecModel Exec.ExecProofs Exec.StepProofs Exec.PendingModel Exec.PendingProofs
-  Exec.RunModel Exec.TxModel Exec.TxProofs Exec.RunProofs Exec.CrashProofs Exec.CrashStoreModel Exec.CrashStoreProofs.
+  Exec.RunModel Exec.TxModel Exec.TxProofs Exec.RunProofs Exec.CrashProofs Exec.CrashStoreModel Exec.CrashStoreProofs Exec.LockModel Exec.LockProofs Exec.TxOrderModel Exec.TxOrderProofs Exec.CrashPointsModel gen.Gen_CrashPoints.
 Import ListNotations.
 
 Section C10.
@@ -359,4 +359,253 @@ Example C10_store_write_fault_nonvacuous :
   let '(c', tr) := run_direct bytes es (mkDb [] []) in
   d_journal c' = [s 1; s 2] /\ map (@r_applied bytes) (d_tbl c') = [1] /\
   crash_state bytes tr BeforeWrite 3 = Some c'.
+Proof. vm_compute. repeat split; reflexivity. Qed.
+
+(** ** Round 5: the migration lock (Exec/LockModel.v: sql/sqlite/driver.go Driver.Lock / acquireLock,
+    cmdapi/migrate_oss.go migrateApplyRun: Lock before anything else, deferred unlock).
+
+    The lock is a file in the temp directory holding the expiry time now + --lock-timeout;
+    it survives the death of the process. Full statements wanted by the property:
+    (1) after a crash at ANY point, re-running the command completes the migration;
+    (2) two concurrent `migrate apply` on one database never interleave.
+    Both are false of the code (refutation witnesses below, reproduced on the real CLI);
+    what does hold is proved as the [_except] theorems. *)
+Section C10lock.
+Variable hash : Type.
+Variable hash_eqb : hash -> hash -> bool.
+Variable HS : bytes -> hash.
+
+(** Mutual exclusion while the lock is valid: a process started before the expiry written in
+    the lock file is refused and changes neither the database nor the lock file -- whatever
+    it was asked to do, wherever it would have crashed. *)
+Theorem C10_lock_excludes_while_valid :
+  forall now timeout cr g n dir e (d : db hash),
+  (now < e)%N ->
+  locked_apply hash hash_eqb HS now timeout cr g n dir (Some (Some e), d) = (CLockTaken, (Some (Some e), d)).
+Proof. exact (locked_apply_excluded hash hash_eqb HS). Qed.
+
+(** Every process that does not get the lock (taken, or unreadable lock file) changes nothing. *)
+Theorem C10_lock_refused_changes_nothing :
+  forall now timeout cr g n dir l (d : db hash),
+  fst (lock now timeout l) <> LAcquired ->
+  (locked_apply hash hash_eqb HS now timeout cr g n dir (l, d) = (CLockTaken, (l, d)) /\ fst (lock now timeout l) = LTaken) \/
+  (locked_apply hash hash_eqb HS now timeout cr g n dir (l, d) = (CLockInvalid, (l, d)) /\ l = Some None).
+Proof. exact (locked_apply_blocked hash hash_eqb HS). Qed.
+
+(** Lock release on every exit that is not a crash: the command is the apply run of the other
+    theorems and leaves NO lock file, whatever the outcome (done, statement error, directive
+    error, nothing pending, Pending error). *)
+Theorem C10_lock_released_on_every_exit :
+  forall now timeout g n dir l (d : db hash),
+  fst (lock now timeout l) = LAcquired ->
+  forall o d' tr, apply_run hash hash_eqb HS g n dir d = (o, d', tr) ->
+  locked_apply hash hash_eqb HS now timeout CNo g n dir (l, d) = (CRan o, (None, d')).
+Proof. exact (locked_apply_releases hash hash_eqb HS). Qed.
+
+(** A crash at any crash point of the run leaves the state of the crash theorems AND the lock
+    file, valid until now + timeout. *)
+Theorem C10_lock_crash_leaves_stale_lock :
+  forall now timeout g n dir l (d : db hash) pt k,
+  fst (lock now timeout l) = LAcquired ->
+  forall o d' tr dc, apply_run hash hash_eqb HS g n dir d = (o, d', tr) ->
+  crash_state hash tr pt k = Some dc ->
+  locked_apply hash hash_eqb HS now timeout (CAt pt k) g n dir (l, d)
+  = (CCrashed, (Some (Some (now + timeout)%N), dc)).
+Proof. exact (locked_apply_crash hash hash_eqb HS). Qed.
+
+(** (1), what holds: after a crash at a crash point of the run, a re-run started before the
+    dead process's lock expires is refused and changes nothing; a re-run started at or after
+    the expiry is not blocked: it IS the apply run from the crashed state (to which
+    C10_rerun_completes and its corollaries apply) and leaves no lock file. *)
+Theorem C10_lock_rerun_not_blocked_forever_except :
+  forall now timeout (dc : db hash) now' timeout' g n dir,
+  ((now' < now + timeout)%N ->
+     forall cr, locked_apply hash hash_eqb HS now' timeout' cr g n dir (Some (Some (now + timeout)%N), dc)
+                = (CLockTaken, (Some (Some (now + timeout)%N), dc))) /\
+  ((now + timeout <= now')%N ->
+     forall o d' tr, apply_run hash hash_eqb HS g n dir dc = (o, d', tr) ->
+     locked_apply hash hash_eqb HS now' timeout' CNo g n dir (Some (Some (now + timeout)%N), dc) = (CRan o, (None, d'))).
+Proof. exact (rerun_after_crash hash hash_eqb HS). Qed.
+
+(** (1) refuted at full strength ("after a crash at any point a re-run completes"): a process
+    that dies inside acquireLock, between os.Create and the write of the expiry (or whose write
+    fails), leaves an EMPTY lock file; every later process -- at any time, with any
+    --lock-timeout, any arguments -- is refused with "invalid lock file format" and changes nothing. *)
+Theorem C10_lock_rerun_refuted :
+  exists cr, forall now timeout g n dir (d : db hash),
+  exists l', locked_apply hash hash_eqb HS now timeout cr g n dir (None, d) = (CCrashed, (l', d)) /\
+  forall now' timeout' cr' g' n' dir',
+    locked_apply hash hash_eqb HS now' timeout' cr' g' n' dir' (l', d) = (CLockInvalid, (l', d)).
+Proof.
+  exists CInAcquire. intros now timeout g n dir d. exists (Some None).
+  exact (crash_in_acquire_blocks_forever hash hash_eqb HS now timeout g n dir None d eq_refl).
+Qed.
+
+(** (2), what holds: a second process started while the first one's lock is valid
+    (tB < tA + TA) is refused, and the result is the first process's run alone. *)
+Theorem C10_lock_concurrent_except :
+  forall tA TA tB TB pt k n dir (d0 : db hash) o dA tr dc,
+  (tB < tA + TA)%N ->
+  apply_run hash hash_eqb HS TxNone n dir d0 = (o, dA, tr) ->
+  crash_state hash tr pt k = Some dc ->
+  concurrent_apply hash hash_eqb HS tA TA tB TB pt k n dir d0 = Some (CRan o, CLockTaken, (None, dA)).
+Proof. exact (concurrent_excluded hash hash_eqb HS). Qed.
+
+(** ... and the exact behaviour once the lock has expired while its holder is still running:
+    the second process is a whole apply run from what the first has committed so far, the
+    first continues blindly, and its unlock fails. *)
+Theorem C10_lock_concurrent_expired :
+  forall tA TA tB TB pt k n dir (d0 : db hash) o dA tr dc oB dB trB,
+  (tA + TA <= tB)%N ->
+  apply_run hash hash_eqb HS TxNone n dir d0 = (o, dA, tr) ->
+  crash_state hash tr pt k = Some dc ->
+  apply_run hash hash_eqb HS TxNone n dir dc = (oB, dB, trB) ->
+  concurrent_apply hash hash_eqb HS tA TA tB TB pt k n dir d0
+  = Some (CUnlockErr o, CRan oB, (None, interleave_none hash dA dc dB)).
+Proof. exact (concurrent_expired hash hash_eqb HS). Qed.
+
+End C10lock.
+
+(** (2) refuted at full strength ("two concurrent `migrate apply` never interleave": the second
+    is refused or runs after the first, every statement once): the lock's life time is
+    --lock-timeout (default 10 s), not the life time of its holder. Witness: directory
+    1 = [s1; s2], 2 = [s3], tx-mode none; A starts at 0 with timeout 1 and is suspended before
+    its second statement; B starts at 5: it is NOT refused, runs s2 and s3; A resumes and runs
+    s2 and s3 again; A's unlock fails (B removed the file). *)
+Theorem C10_lock_concurrent_refuted :
+  exists tA TA tB TB pt k n dir (d0 : db bytes) oA oB d,
+  concurrent_apply bytes bytes_eqb (fun b => b) tA TA tB TB pt k n dir d0 = Some (oA, CRan oB, (None, d)) /\
+  oA = CUnlockErr ADone /\ oB = ADone /\ ~ NoDup (d_journal d).
+Proof.
+  exists 0%N, 1%N, 5%N, 1%N, BeforeExec, 2, 0, ex_dir, ex_db0.
+  eexists. eexists. eexists. split; [vm_compute; reflexivity|].
+  split; [reflexivity|]. split; [reflexivity|].
+  intro H. cbn in H. inversion H as [|x l _ H2]. inversion H2 as [|y l2 Hn _]. apply Hn. right. left. reflexivity.
+Qed.
+
+(** (1) also refuted for crash points of the run when the re-run comes BEFORE the dead process's lock
+    expires (the known finding C10-stale-lock-after-crash): killed after the first statement at
+    time 0 with a timeout of 3600000, re-run at 1000: refused, nothing changes, the migration is not completed. *)
+Theorem C10_lock_rerun_stale_refuted :
+  exists now timeout pt k g n dir (d0 : db bytes) now' s1,
+  locked_apply bytes bytes_eqb (fun b => b) now timeout (CAt pt k) g n dir (None, d0) = (CCrashed, s1) /\
+  (now < now')%N /\
+  locked_apply bytes bytes_eqb (fun b => b) now' timeout CNo g n dir s1 = (CLockTaken, s1) /\
+  d_journal (snd s1) = [s 1].
+Proof.
+  exists 0%N, 3600000%N, AfterExec, 1, TxNone, 0, ex_dir, ex_db0, 1000%N.
+  eexists. split; [vm_compute; reflexivity|]. split; [reflexivity|]. split; vm_compute; reflexivity.
+Qed.
+Print Assumptions C10_lock_rerun_stale_refuted.
+Print Assumptions C10_lock_excludes_while_valid.
+Print Assumptions C10_lock_refused_changes_nothing.
+Print Assumptions C10_lock_released_on_every_exit.
+Print Assumptions C10_lock_crash_leaves_stale_lock.
+Print Assumptions C10_lock_rerun_not_blocked_forever_except.
+Print Assumptions C10_lock_rerun_refuted.
+Print Assumptions C10_lock_concurrent_except.
+Print Assumptions C10_lock_concurrent_expired.
+Print Assumptions C10_lock_concurrent_refuted.
+
+(** Non-vacuity: a crash after the 2nd statement (tx-mode none, started at 100 with timeout
+    10000) leaves the lock file valid until 10100; the re-run at 200 is refused, the one at
+    10100 completes and removes the file; an unkilled run leaves no file; a second process at
+    50 while the first (timeout 100) is suspended is refused. *)
+Example C10_lock_nonvacuous :
+  let run := locked_apply bytes bytes_eqb (fun b => b) in
+  let '(o1, s1) := run 100%N 10000%N (CAt AfterExec 2) TxNone 0 ex_dir (None, ex_db0) in
+  o1 = CCrashed /\ fst s1 = Some (Some 10100%N) /\ d_journal (snd s1) = [s 1; s 2] /\
+  run 200%N 10000%N CNo TxNone 0 ex_dir s1 = (CLockTaken, s1) /\
+  (let '(o3, s3) := run 10100%N 10000%N CNo TxNone 0 ex_dir s1 in
+   o3 = CRan ADone /\ fst s3 = None /\ d_journal (snd s3) = [s 1; s 2; s 2; s 3]) /\
+  fst (snd (run 0%N 5%N CNo TxFile 0 ex_dir (None, ex_db0))) = None /\
+  fst (run 0%N 5%N CInAcquire TxFile 0 ex_dir (None, ex_db0)) = CCrashed /\
+  (match concurrent_apply bytes bytes_eqb (fun b => b) 0%N 100%N 50%N 100%N BeforeExec 2 0 ex_dir ex_db0 with
+   | Some (oA, oB, (l, d)) => oA = CRan ADone /\ oB = CLockTaken /\ l = None /\ d_journal d = [s 1; s 2; s 3]
+   | None => False end).
+Proof. vm_compute. repeat split; reflexivity. Qed.
+
+(** ** Round 5: --exec-order (Exec/TxOrderModel.v: the command with the order Pending uses as a parameter) *)
+Section C10order.
+Variable hash : Type.
+Variable hash_eqb : hash -> hash -> bool.
+Variable HS : bytes -> hash.
+
+(** With the default order the command is the [apply_run] of all theorems above. *)
+Theorem C10_order_linear_is_apply_run :
+  forall g n dir (c : db hash),
+  apply_run_ord hash hash_eqb HS Linear g n dir c = apply_run hash hash_eqb HS g n dir c.
+Proof. exact (apply_run_ord_linear hash hash_eqb HS). Qed.
+
+(** For EVERY execution order the command either stops in Pending (nothing touched, no crash
+    point) or is the loop of migrateApplyRun over files of the directory -- those Pending chose
+    under that order, cut to the count -- from the state it found, plus the final commit of an
+    open `all` transaction: the crashed-state theorems stated on the loop
+    (C10_file_never_half_applied, C10_none_prefix via run_direct) hold for linear-skip and
+    non-linear as they are. NOT proved for these orders (partial): that the re-run completes
+    (C10_rerun_completes assumes the linear resume invariant); tied on the real CLI instead. *)
+Theorem C10_order_run_is_loop_partial :
+  forall ord g n dir (c : db hash) o c' tr,
+  apply_run_ord hash hash_eqb HS ord g n dir c = (o, c', tr) ->
+  (exists p, o = APend p /\ c' = c /\ tr = [] /\
+             fst (pending (mkCfg ord None true true) (map tf_file dir) (read_revisions hash (d_tbl c))) = p /\
+             forall fs, p <> PFiles fs) \/
+  (exists ps files o1 c1 w tr1,
+     fst (pending (mkCfg ord None true true) (map tf_file dir) (read_revisions hash (d_tbl c))) = PFiles ps /\
+     files = chosen_tfiles dir (if 0 <? n then firstn n ps else ps) /\ incl files dir /\
+     apply_loop hash hash_eqb HS g files c None = (o1, c1, w, tr1) /\
+     ((o1 = ADone /\ exists wd, w = Some wd /\ o = ADone /\ c' = wd /\
+                                tr = tr1 ++ [(BeforeCommit, c1); (AfterCommit, wd)]) \/
+      ((o1 <> ADone \/ w = None) /\ o = o1 /\ c' = c1 /\ tr = tr1))).
+Proof. exact (apply_run_ord_is_loop hash hash_eqb HS). Qed.
+
+End C10order.
+Print Assumptions C10_order_linear_is_apply_run.
+Print Assumptions C10_order_run_is_loop_partial.
+
+(** Non-vacuity (the scenario of the c10ord cases): 1 and 3 applied, the older file 2 (three
+    statements) and 4 added; non-linear, tx-mode none, killed after the 2nd statement of file 2:
+    its revision is partial (1 of 3) without error; the re-run resumes it at statement 2 (the
+    one in flight runs twice) and goes on with 4; linear-skip never runs file 2. *)
+Definition ord_dir0 : list tfile :=
+  [ mkTfile (mkFile [49%N] [s 1] false) None None; mkTfile (mkFile [51%N] [s 2] false) None None ].
+Definition ord_dir : list tfile :=
+  [ mkTfile (mkFile [49%N] [s 1] false) None None; mkTfile (mkFile [50%N] [s 3; s 4; s 5] false) None None;
+    mkTfile (mkFile [51%N] [s 2] false) None None; mkTfile (mkFile [52%N] [s 6] false) None None ].
+Example C10_order_nonvacuous :
+  let '(_, d0, _) := apply_run bytes bytes_eqb (fun b => b) TxNone 0 ord_dir0 ex_db0 in
+  let '(_, _, tr) := apply_run_ord bytes bytes_eqb (fun b => b) NonLinear TxNone 0 ord_dir d0 in
+  match crash_state bytes tr AfterExec 2 with
+  | Some d =>
+      d_journal d = [s 1; s 2; s 3; s 4] /\
+      map (fun r => (r_applied r, r_total r, r_err r)) (read_revisions bytes (d_tbl d)) = [(1, 1, false); (1, 3, false); (1, 1, false)] /\
+      (let '(o2, c2, _) := apply_run_ord bytes bytes_eqb (fun b => b) NonLinear TxNone 0 ord_dir d in
+       o2 = ADone /\ d_journal c2 = [s 1; s 2; s 3; s 4; s 4; s 5; s 6]) /\
+      (let '(o3, c3, _) := apply_run_ord bytes bytes_eqb (fun b => b) LinearSkip TxNone 0 ord_dir d0 in
+       o3 = ADone /\ d_journal c3 = [s 1; s 2; s 6])
+  | None => False
+  end.
+Proof. vm_compute. repeat split; reflexivity. Qed.
+
+(** ** Round 5: census of the crash hooks. gen/Gen_CrashPoints.v is regenerated on every run from
+    the Go tree (every call verifPoint("<name>") outside test files). The model's crash-point
+    type is enumerated by [all_points]; [point_name] (extracted, used by the driver to print and
+    parse points) is injective; every hook call of the tree names a point of the model, and every
+    point of the model is a hook call of the tree. A hook added to the tree without a point in
+    the model (or a point removed from the tree) breaks this theorem. The finite side conditions
+    over the generated list are checked by computation. *)
+Theorem C10_crashpoints_covered :
+  (forall p : point, In p all_points) /\
+  (forall p : point, point_of_name (point_name p) = Some p) /\
+  hooks_covered gen_crash_points = true /\
+  points_hooked gen_crash_points = true.
+Proof.
+  split; [intros []; cbn; tauto|]. split; [intros []; reflexivity|].
+  split; vm_compute; reflexivity.
+Qed.
+Print Assumptions C10_crashpoints_covered.
+
+Example C10_crashpoints_nonvacuous :
+  List.length gen_crash_points = 6 /\ hooks_covered example_unknown_hook = false /\
+  points_hooked (tl gen_crash_points) = false.
 Proof. vm_compute. repeat split; reflexivity. Qed.
